@@ -2,7 +2,7 @@
    Only statements, each closed by `exact <lemma>`, its assumptions printed, and Examples
    showing that the hypotheses are met by non-trivial values. *)
 From Pybtex Require Import Base.Prelude Base.PyChar Base.PyStr Model.RtTypes Model.Backends
-  Proofs.Backends Proofs.BackendsMd Proofs.BackendsHtml Proofs.BackendsLatex Proofs.BackendsDepth Proofs.BackendsTotal Proofs.BackendsHtmlWf Proofs.BackendsMdTree.
+  Proofs.Backends Proofs.BackendsMd Proofs.BackendsHtml Proofs.BackendsLatex Proofs.BackendsDepth Proofs.BackendsTotal Proofs.BackendsHtmlWf Proofs.BackendsMdTree Proofs.BackendsEx.
 Local Open Scope N_scope.
 
 (* ---- plain text: the output is the text with symbols replaced by the back end's plain
@@ -108,7 +108,7 @@ Print Assumptions latex_href_encloses.
 Theorem latex_group_matches : forall body, balanced body ->
   (forall p q, body = p ++ q -> exists k, bal 0 ([c_lbrace] ++ p) = Some (S k)) /\
   bal 0 ([c_lbrace] ++ body ++ [c_rbrace]) = Some 0%nat.
-Proof. intros body H. split; [exact (group_stays_open body H)|exact (group_closes body H)]. Qed.
+Proof. exact group_matches. Qed.
 Print Assumptions latex_group_matches.
 
 (* ---- empty tagged or linked fragments render as nothing, in all four back ends ---- *)
@@ -139,17 +139,6 @@ Proof. exact parse_latex_spec. Qed.
 Print Assumptions from_latex_carries_depths.
 
 (* ---- non-vacuity ---- *)
-Definition ex_enc : enc_table :=
-  [(35, (lit "\#", false)); (37, (lit "\%", false)); (38, (lit "\&", false)); (95, (lit "\_", false));
-   (126, (lit "\textasciitilde", true))].
-Definition ex_latex : tables :=
-  mkTables [(lit "ndash", lit "--"); (lit "newblock", 10 :: lit "\newblock "); (lit "nbsp", lit "~")]
-           [(lit "em", Some (lit "emph")); (lit "strong", None); (lit "b", Some (lit "textbf"))] markdown_escapable.
-Definition ex_html : tables :=
-  mkTables [(lit "ndash", lit "&ndash;"); (lit "newblock", [10]); (lit "nbsp", lit "&nbsp;")] [] markdown_escapable.
-Definition ex_tree : rt :=
-  RText [RStr (lit "a<b & {c}~"); RTag (lit "em") [RStr (lit "x_"); RProt [RStr (lit "Y")]];
-         RSym (lit "nbsp"); RHRef (lit "http://x.org/a_b") true [RStr (lit "z")]; RTag (lit "strong") [RStr []]].
 
 Example md_table_example : md_table_shape markdown_escapable = true /\ same_set markdown_escapable markdown_escapable = true /\
   format_str (enc_tab ex_enc) ex_latex BMarkdown (lit "a*b\c<") = lit "a\*b\\c&lt;".
@@ -180,9 +169,6 @@ Proof. vm_compute. auto. Qed.
 Example html_not_wellformed_example : wellformed_b (lit "<em>a</b>") = false /\ wellformed_b (lit "a < b") = false /\
   wellformed_b (lit "<a href=""u"">x &amp; y</a>") = true.
 Proof. vm_compute. auto. Qed.
-Definition ex_md : tables :=
-  mkTables [(lit "ndash", lit "&ndash;"); (lit "newblock", [10]); (lit "nbsp", lit " ")]
-           [(lit "em", Some (lit "*")); (lit "strong", Some (lit "**")); (lit "tt", Some (lit "`"))] markdown_escapable.
 Example md_tree_example : md_tables_ok ex_md = true /\ md_names_ok ex_tree = true /\
   render (enc_tab ex_enc) ex_md BMarkdown ex_tree =
     Ok (lit "a&lt;b &amp; \{c\}~*x\_Y* <a href=""http://x.org/a_b"" target=""_blank"">z</a>") /\
